@@ -604,8 +604,6 @@ class io_epoll_context::read_sender {
 
       UNIFEX_ASSERT(static_cast<completion_base&>(self).enqueued_.load() == 0);
 
-      self.stopCallback_.destruct();
-
       auto oldState = self.state_.fetch_add(
           io_epoll_context::read_sender::operation<Receiver>::io_flag,
           std::memory_order_acq_rel);
@@ -617,6 +615,8 @@ class io_epoll_context::read_sender {
         // completion
         return;
       }
+
+      self.stopCallback_.destruct();
 
       epoll_event event = {};
       (void)epoll_ctl(
@@ -654,6 +654,10 @@ class io_epoll_context::read_sender {
       if (static_cast<completion_base&>(self).enqueued_.load() == 0) {
         // Avoid instantiating set_done() if we're not going to call it.
         if constexpr (is_stop_ever_possible) {
+          // Only reached via request_stop(), i.e. from the stop callback:
+          // deregister it (waiting for it to return if it is still running
+          // on another thread) before the receiver is completed.
+          self.stopCallback_.destruct();
           unifex::set_done(std::move(self.receiver_));
         } else {
           // This should never be called if stop is not possible.
@@ -833,8 +837,6 @@ class io_epoll_context::write_sender {
 
       UNIFEX_ASSERT(static_cast<completion_base&>(self).enqueued_.load() == 0);
 
-      self.stopCallback_.destruct();
-
       epoll_event event = {};
       (void)epoll_ctl(
           self.context_.epollFd_.get(), EPOLL_CTL_DEL, self.fd_, &event);
@@ -850,6 +852,8 @@ class io_epoll_context::write_sender {
         // completion
         return;
       }
+
+      self.stopCallback_.destruct();
 
       auto result = writev(self.fd_, self.buffer_, 1);
       UNIFEX_ASSERT(result != -EAGAIN);
@@ -883,6 +887,10 @@ class io_epoll_context::write_sender {
       if (static_cast<completion_base&>(self).enqueued_.load() == 0) {
         // Avoid instantiating set_done() if we're not going to call it.
         if constexpr (is_stop_ever_possible) {
+          // Only reached via request_stop(), i.e. from the stop callback:
+          // deregister it (waiting for it to return if it is still running
+          // on another thread) before the receiver is completed.
+          self.stopCallback_.destruct();
           unifex::set_done(std::move(self.receiver_));
         } else {
           // This should never be called if stop is not possible.
